@@ -238,7 +238,26 @@ def ipn(s):
     return l1.ip(a, b, c, d)
 
 
+def order_dependent(o):
+    """One event wrote two different values under one key of one module. The plug-in sends the commands of a batch
+    concurrently (one goroutine per rule, joined by GRPCJoin), so which value stays is decided by the scheduler, while
+    the model applies a batch in list order. Such histories (a duplicated Update PDR IE whose two copies end up with
+    differently ordered QER lists - only the IE-duplication mutants of C01 produce them) are not compared."""
+    seen = {}
+    for c in o.get("cmds", []) if isinstance(o.get("cmds"), list) else []:
+        if c.get("c") != "add":
+            continue
+        k = (c["m"], tuple(c["k"]))
+        v = tuple(c["v"])
+        if k in seen and seen[k] != v:
+            return True
+        seen[k] = v
+    return False
+
+
 def case_term(case, obs):
+    if any(order_dependent(o) for o in obs):
+        return None
     evs = []
     prev_state = None
     last = min(len(case["events"]), len(obs)) - 1
